@@ -184,7 +184,13 @@ class Session:
                 res = {"art": artefact(out)}
             elif kind == "export":
                 # Network.export(): network file + config + sources + generic test programs
-                shutil.rmtree(os.path.join(self.dir, "exported", self.desc["name"]), ignore_errors=True)
+                # an older export with the SAME request is overwritten in place (overwrite=True); after a
+                # different back-end the directory is cleared first - files of the other back-end that
+                # naunet simply does not touch are leftovers on disk, not output of this rendering
+                key = (st["solver"], st["method"], st["device"])
+                if getattr(self, "_last_export", None) != key:
+                    shutil.rmtree(os.path.join(self.dir, "exported", self.desc["name"]), ignore_errors=True)
+                self._last_export = key
                 os.makedirs(os.path.join(self.dir, "exported"), exist_ok=True)
                 self.net.export(self.desc["name"], solver=st["solver"], method=st["method"], device=st["device"],
                                 prefix=os.path.join(self.dir, "exported"), overwrite=True)
